@@ -11,11 +11,13 @@ import (
 	"os"
 	"path/filepath"
 	"sort"
+	"time"
 )
 
 var (
 	vFSRootDir string
 	vFSPutLog  = map[string]string{}
+	vFSPutTime = map[string]time.Time{}
 )
 
 func vFSRoot() string {
@@ -46,6 +48,9 @@ func vFSPut(rel, content string) {
 		panic(err)
 	}
 	vFSPutLog[rel] = content
+	if fi, err := os.Stat(p); err == nil {
+		vFSPutTime[rel] = fi.ModTime()
+	}
 }
 
 func vFSMkdir(rel string) { os.MkdirAll(vFSPath(rel), 0755) }
@@ -55,11 +60,13 @@ func vFSGet(rel string) (string, bool) {
 	return string(b), err == nil
 }
 
-// vFSWrites: natively, the files whose content differs from what the harness put there.
+// vFSWrites: natively, the files whose content or modification time differs from what the harness put there.
 func vFSWrites() []string {
 	var out []string
 	for rel, c := range vFSPutLog {
-		if now, ok := vFSGet(rel); !ok || now != c {
+		now, ok := vFSGet(rel)
+		fi, err := os.Stat(vFSPath(rel))
+		if !ok || now != c || err != nil || !fi.ModTime().Equal(vFSPutTime[rel]) {
 			out = append(out, rel)
 		}
 	}
